@@ -35,6 +35,7 @@ typedef struct { int open; long opens, closes, double_close, close_unowned; } WF
 void w_fd_stats(long *opened, long *closed, long *still_open, long *double_close, long *unowned_close);
 int  w_fd_is_tracked_open(int fd);
 void w_fd_track_enable(int on);      /* count close() of descriptors that were never handed out as `unowned` */
+extern int w_fd_exhausted;           /* set: sem_open / shm_open fail with EMFILE as if the descriptor table were full */
 void w_fd_note_open(int fd);         /* a descriptor the harness opened by a call that is not wrapped (open): enters the life-cycle table like a socket */
 void w_fd_mark_owned(int fd);        /* harness-owned fd: closing it through plibsys would be `unowned`; closing by harness is fine */
 
